@@ -52,7 +52,7 @@ def paths(maxlen):
 
 
 SYM = [{"/": "/", "a": "a", "b": "b", "r": "r"}, {"/": "/", "a": "api", "b": "v1", "r": "root"},
-       {"/": "/", "a": "x-y.z", "b": "%2F", "r": "r.s"}]
+       {"/": "/", "a": "\u00e9-\u4e2d", "b": "%2F", "r": "r.s"}]
 
 
 def conc(seq, m):
@@ -269,7 +269,6 @@ def run(ctx):
                 "replayed on real Subpaths/Hosts on WSGI and ASGI; non-trivial = nested descent, overlapping prefixes "
                 "(/a vs /ab), non-first host entries, rejected non-empty hosts")
     ctx.assumptions = ["prefixes obey the constructor's asserts (start with '/', no trailing '/')",
-                       "mount prefixes are ASCII (WSGI hands PATH_INFO over as Latin-1-decoded UTF-8, see C04)",
                        "token-level host matching equals character-level matching for the token set used (checked by replay)"]
     nm = run_mount(ctx, ctx.tier)
     nh = run_hosts(ctx, ctx.tier)
